@@ -1146,9 +1146,12 @@ class Epoch(object):
         elif j > 365 and x % 4 > 0:
             j -= 365
             x += 1
+        elif j < 1:  # Last day of the previous (Julian) year
+            x -= 1
+            j += 366 if x % 4 == 0 else 365
 
         # Check if date is in Gregorian calendar. '277' is DOY of October 4th
-        if (x > 1583) or (x == 1582 and j > 277):
+        if (x > 1582) or (x == 1582 and j > 277):
             jd = iint(365.25 * (x - 1.0)) + 1721423 + j
             alpha = iint((jd - 1867216.25) / 36524.25)
             beta = jd if jd < 2299161 else (jd + 1 + alpha - iint(alpha / 4.0))
